@@ -6,6 +6,7 @@
 package c17
 
 import (
+	"bytes"
 	"fmt"
 	"runtime"
 	"sync"
@@ -53,6 +54,8 @@ type params struct {
 	// OneProc: the case process runs with GOMAXPROCS(1) (a single-core board): reporting goroutines only get to run when
 	// the session goroutine blocks, so what they owe piles up between transfers.
 	OneProc bool `json:"one_proc,omitempty"`
+	// CSize > 0: the messages from A have a compressed size of exactly this many bytes (searched): 125 is one full data block
+	CSize int `json:"csize,omitempty"`
 }
 
 var Check = &vrt.Check{
@@ -124,6 +127,10 @@ func plan(seed int64, tier string) []vrt.Case {
 	for rep := 0; rep < reps; rep++ {
 		cs = append(cs, vrt.Case{ID: fmt.Sprintf("txwindow-r%d", rep), Params: vrt.MustParams(params{Seed: seed, Index: 3000, DelayMS: 50, Size: 2600, NMsgs: 2, Modem: true, Rep: rep, TxWindowMS: 700, SlowAfter: 3000}), TimeoutS: 600})
 		cs = append(cs, vrt.Case{ID: fmt.Sprintf("bigfirst-r%d", rep), Params: vrt.MustParams(params{Seed: seed, Index: 3001, DelayMS: 50, Size: 3200, NMsgs: 3, Rep: rep, BigFirst: true}), TimeoutS: 600})
+	}
+	// compressed sizes that are whole numbers of data blocks (125 bytes each), and their neighbours
+	for _, cz := range []int{124, 125, 126, 250} {
+		cs = append(cs, vrt.Case{ID: fmt.Sprintf("csize%d", cz), Params: vrt.MustParams(params{Seed: seed, Index: 5000 + cz, DelayMS: 0, Size: 100, NMsgs: 2, Rep: cz % 2, CSize: cz}), TimeoutS: 600})
 	}
 	// a single-core machine, unpaced links, blocks of three messages
 	for i, sz := range []int{200, 3000, 20000} {
@@ -379,7 +386,36 @@ func attemptPair(c vrt.Case) (vrt.Obs, map[string]bool) {
 		}
 		return m, err
 	}
-	for i := 0; i < p.NMsgs; i++ {
+	if p.CSize > 0 {
+		// messages whose COMPRESSED size is exactly p.CSize (a whole number of 125-byte blocks): the body is searched
+		found := 0
+		for try := 0; try < 20000 && found < p.NMsgs; try++ {
+			mid := fmt.Sprintf("A%d", found)
+			// a short message: compressible filler plus a few PRNG bytes (the smallest messages compress to about 110 bytes)
+			body := append(bytes.Repeat([]byte("a"), 1+try%97), vrt.Bytes(rng, (try/97)%(8+p.CSize/3))...)
+			m := b2fx.MsgSpec{MID: mid, From: b2fx.CallA, To: []string{b2fx.CallB}, Subject: "s", Body: body, Shape: "searched", Minimal: p.CSize < 200, NoDate: p.CSize < 200 && try%2 == 0}
+			cb, err := m.Canonical()
+			if err != nil {
+				continue
+			}
+			msg := new(fbb.Message)
+			if msg.ReadFrom(bytes.NewReader(cb)) != nil {
+				continue
+			}
+			if pr, err := msg.Proposal(fbb.Wl2kProposal); err != nil || pr.CompressedSize() != p.CSize {
+				continue
+			}
+			sc.Truth[mid], sc.Policy[mid] = cb, fbb.Accept
+			sc.MsgsA = append(sc.MsgsA, m)
+			found++
+		}
+		if found < p.NMsgs {
+			o.Inconclusive = append(o.Inconclusive, fmt.Sprintf("no message with a compressed size of exactly %d bytes found", p.CSize))
+			return o, missing
+		}
+		o.Count("messages_with_a_compressed_size_of_whole_blocks", int64(found))
+	}
+	for i := 0; i < p.NMsgs && p.CSize == 0; i++ {
 		size := p.Size + rng.Intn(1+p.Size/8) // jitter: the end of the transfer falls at varying phases of the 250 ms tick
 		if i > 0 && p.TxDelayMS+p.UpdDelayMS == 0 {
 			size = 50 + p.Size/4
